@@ -454,6 +454,7 @@ fn case(src: &mut Src, ctx: &mut Ctx) -> Result<(), Fail> {
         valid_acks: 0,
         near_miss: 0,
         crossings: 0,
+        unusable_t1_t2_leases: 0,
         reply_kinds: vec![],
     };
 
@@ -493,6 +494,7 @@ fn case(src: &mut Src, ctx: &mut Ctx) -> Result<(), Fail> {
     ctx.count("steps", steps as u64);
     ctx.count("valid_acks", w.valid_acks as u64);
     ctx.count("near_miss_acks", w.near_miss as u64);
+    ctx.count("leases_with_unusable_t1_t2_pair", w.unusable_t1_t2_leases as u64);
 
     ctx.digest.bytes(&w.reply_kinds);
     ctx.digest.u64(w.crossings as u64);
